@@ -13,7 +13,7 @@ import (
 
 func init() {
 	register("C01",
-		"that the conversion round-trips or preserves order on any date: the month table, its day counts and the explicit leap overrides (LEAP_11, LEAP_12) are numeric data of the astronomy and are not decided by any rule here.",
+		"that the conversion round-trips or preserves order on any date: the real new moons and terms, the day counts they give and the explicit leap overrides (LEAP_11, LEAP_12) are numeric data of the astronomy; R06.5 follows the construction of the month table on a synthetic ephemeris only.",
 		r01_1, r01_2, r01_3, r01_4, r01_5, r06_2, r08_6, r08_8, r04_2, r06_4, r06_5)
 }
 
